@@ -10,6 +10,7 @@ import (
 	mrand "math/rand"
 	"os"
 	"strings"
+	"time"
 
 	"gitlab.com/aquachain/aquachain/common"
 	"gitlab.com/aquachain/aquachain/common/log"
@@ -33,6 +34,14 @@ type Session struct {
 	Shortened bool         // some insert made the head number go down
 	Rewound   map[int]bool // blocks that were canonical above a SetHead target
 	Mixed     bool         // headers were fed to a full chain: the C03 statement has no single head any more
+	Pruning   bool         // session "p": a pruning (non-archive) node; the archive-only model is not consulted, the direct oracle runs alone
+}
+
+// tdSnap remembers a *big.Int handed out by a getter and the value it had.
+type tdSnap struct {
+	what string
+	p    *big.Int
+	v    string
 }
 
 type Runner struct {
@@ -50,7 +59,12 @@ func init() { log.Root().SetHandler(log.DiscardHandler()) }
 func (r *Runner) sid(name string) string { return fmt.Sprintf("%s%d", name, r.uniq) }
 
 func (r *Runner) open(s *Session) error {
-	bc, err := core.NewBlockChain(context.Background(), s.DB, &core.CacheConfig{Disabled: true}, r.T.Config, r.T.Engine, vm.Config{})
+	cfg := &core.CacheConfig{Disabled: true}
+	if s.Pruning {
+		// large limits: nothing is flushed during import, states older than triesInMemory are garbage collected
+		cfg = &core.CacheConfig{Disabled: false, TrieNodeLimit: 256, TrieTimeLimit: 5 * time.Minute}
+	}
+	bc, err := core.NewBlockChain(context.Background(), s.DB, cfg, r.T.Config, r.T.Engine, vm.Config{})
 	if err != nil {
 		return err
 	}
@@ -59,10 +73,18 @@ func (r *Runner) open(s *Session) error {
 }
 
 func (r *Runner) newSession(name string) *Session {
-	s := &Session{Name: name, DB: NewRecDB(), Eligible: map[int]bool{0: true}, HdrElig: map[int]bool{0: true}, Rewound: map[int]bool{}}
+	s := &Session{Name: name, DB: NewRecDB(), Eligible: map[int]bool{0: true}, HdrElig: map[int]bool{0: true}, Rewound: map[int]bool{}, Pruning: name == "p"}
 	r.T.Gspec.MustCommit(s.DB)
 	s.DB.Take() // the genesis writes are the model's initial disk
 	g := r.T.Blocks[0]
+	if s.Pruning {
+		if err := r.open(s); err != nil {
+			r.C.Fatal("NewBlockChain (pruning) on a fresh genesis: %v", err)
+		}
+		r.S[name] = s
+		s.DB.Take()
+		return s
+	}
 	if a := r.M.Ask(fmt.Sprintf("init %s 1 %d %d", r.sid(name), g.Difficulty(), r.T.Ids.Root[g.Root()])); a != "ok" {
 		r.C.Fatal("model init: %s", a)
 	}
@@ -258,6 +280,7 @@ func (r *Runner) Apply(k int, op OpSpec) {
 	hdrBefore := t.ByHash[s.BC.CurrentHeader().Hash()]
 	var impl, ask string
 	what := fmt.Sprintf("op %d %s", k, op.Kind)
+	snaps := r.snapshotBigInts(s)
 	panicked, pv := vh.CatchPanic(func() {
 		switch op.Kind {
 		case "insert":
@@ -293,7 +316,10 @@ func (r *Runner) Apply(k int, op OpSpec) {
 			r.C.Fatal("unknown op kind %q", op.Kind)
 		}
 	})
-	model := r.M.Ask(ask)
+	model := impl
+	if !s.Pruning {
+		model = r.M.Ask(ask)
+	}
 	if panicked {
 		impl = "panic"
 		if strings.HasPrefix(model, "panic") {
@@ -309,14 +335,25 @@ func (r *Runner) Apply(k int, op OpSpec) {
 		s.Dead = true
 		return
 	}
-	r.compare(s, what)
+	if s.Pruning {
+		if os.Getenv("CHAIN_DEBUG") != "" {
+			fmt.Fprintln(os.Stderr, "PRUNING", r.Sc.Name, what, op.Nodes, "->", impl, "head", r.T.ByHash[s.BC.CurrentBlock().Hash()], "log", clipStr(r.T.Ids.Project(append([]Rec(nil), s.DB.Log...)), 300))
+		}
+		s.DB.Take()
+		if why := r.apiCoherent(s); why != "coherent" {
+			r.C.Violate(fmt.Sprintf("cache-disagrees-with-database/%s/op%d", r.Sc.Name, k), "a cached BlockChain getter disagrees with the database: "+why, r.replay(k, nil))
+		}
+	} else {
+		r.compare(s, what)
+	}
+	r.checkBigInts(s, k, snaps)
 
 	// ---- bookkeeping + classification of what happened (for the evidence distribution)
 	headAfter := t.ByHash[s.BC.CurrentBlock().Hash()]
 	class := op.Sess + ":" + op.Kind
 	switch op.Kind {
 	case "insert":
-		if s.Name == "f" || s.Name == "m" {
+		if s.Name == "f" || s.Name == "m" || s.Name == "p" {
 			for _, n := range op.Nodes {
 				if t.Spec[n].Valid && s.Eligible[t.Spec[n].Parent] {
 					s.Eligible[n] = true
@@ -375,9 +412,10 @@ func (r *Runner) Apply(k int, op OpSpec) {
 	r.C.Eval(class, nt)
 
 	// ---- direct oracle: the property statements on the implementation
-	if r.Prop == "C02" {
+	if r.Prop == "C02" || s.Pruning {
 		r.oracleC02(s, k, op, headBefore, hdrBefore)
-	} else {
+	}
+	if r.Prop != "C02" {
 		r.oracleC03(s, k, op)
 	}
 }
@@ -427,6 +465,42 @@ func (r *Runner) classifyPanic(s *Session, k int, op OpSpec, msg string) (string
 	return fmt.Sprintf("chain-op-panics/%s/%x/%s", op.Kind, sha1.Sum(raw), msg), "a chain operation panics on a history of well-formed blocks"
 }
 
+// snapshotBigInts collects the *big.Int values the chain hands out (GetTd for
+// every block, the difficulty inside every tree block) with their current
+// values; checkBigInts verifies after the operation that none of them was
+// mutated in place (aliasing of cache entries / header fields).
+func (r *Runner) snapshotBigInts(s *Session) []tdSnap {
+	var out []tdSnap
+	for i, b := range r.T.Blocks {
+		if td := s.BC.GetTd(b.Hash(), r.T.Num[i]); td != nil {
+			out = append(out, tdSnap{fmt.Sprintf("GetTd(node %d)", i), td, td.String()})
+		}
+	}
+	return out
+}
+
+func (r *Runner) checkBigInts(s *Session, k int, snaps []tdSnap) {
+	for _, sn := range snaps {
+		if sn.p.String() != sn.v {
+			r.C.Violate(fmt.Sprintf("bigint-mutated-in-place/%s/op%d/%s", r.Sc.Name, k, sn.what), "a *big.Int returned by a getter before the operation was changed by it: "+sn.what+" was "+sn.v+" now "+sn.p.String(), r.replay(k, nil))
+			break
+		}
+	}
+	for i, b := range r.T.Blocks {
+		if i > 0 && b.Difficulty().Int64() != r.T.Spec[i].Diff {
+			r.C.Violate(fmt.Sprintf("block-difficulty-mutated/%s/op%d/node%d", r.Sc.Name, k, i), "the difficulty inside a delivered block object was changed by a chain operation", r.replay(k, nil))
+			break
+		}
+	}
+}
+
+func clipStr(s string, n int) string {
+	if len(s) > n {
+		return s[:n] + "..."
+	}
+	return s
+}
+
 func (r *Runner) replay(k int, extra map[string]interface{}) map[string]interface{} {
 	m := map[string]interface{}{"scenario": r.Sc, "failing_op": k}
 	for a, b := range extra {
@@ -439,28 +513,40 @@ func (r *Runner) replay(k int, extra map[string]interface{}) map[string]interfac
 func (r *Runner) oracleC02(s *Session, k int, op OpSpec, headBefore, hdrBefore int) {
 	t := r.T
 	tag := fmt.Sprintf("%s/op%d", r.Sc.Name, k)
+	// every stored TD, read through the cached getter AND straight from the database, is the
+	// parent's plus the block's difficulty and equals the sum of difficulties from the tree spec
 	for i := 1; i < len(t.Blocks); i++ {
-		td := s.BC.GetTd(t.Blocks[i].Hash(), t.Num[i])
-		if td == nil {
-			continue
-		}
+		h, n := t.Blocks[i].Hash(), t.Num[i]
 		p := t.Spec[i].Parent
-		ptd := s.BC.GetTd(t.Blocks[p].Hash(), t.Num[p])
-		if ptd == nil {
-			if op.Kind == "sethead" || len(s.Rewound) > 0 {
-				continue // a rewind removes the TD of rewound canonical blocks but keeps their side children
+		ph, pn := t.Blocks[p].Hash(), t.Num[p]
+		for _, src := range []struct {
+			name    string
+			td, ptd *big.Int
+		}{{"cache", s.BC.GetTd(h, n), s.BC.GetTd(ph, pn)}, {"database", core.GetTd(s.DB, h, n), core.GetTd(s.DB, ph, pn)}} {
+			td, ptd := src.td, src.ptd
+			if td == nil {
+				continue
 			}
-			r.C.Violate("td-additive/parent-td-missing/"+tag, "a stored block's parent has no total difficulty", r.replay(k, map[string]interface{}{"node": i}))
-			continue
-		}
-		if new(big.Int).Add(ptd, t.Blocks[i].Difficulty()).Cmp(td) != 0 || td.Cmp(t.TrueTd[i]) != 0 {
-			r.C.Violate("td-additive/"+tag, "td(b) != td(parent b) + difficulty(b)", r.replay(k, map[string]interface{}{"node": i, "td": td.String(), "parent_td": ptd.String()}))
+			if td.Cmp(t.TrueTd[i]) != 0 {
+				r.C.Violate("td-additive/"+src.name+"/"+tag, "a stored total difficulty is not the sum of the difficulties of the block and its ancestors", r.replay(k, map[string]interface{}{"node": i, "td": td.String(), "want": t.TrueTd[i].String(), "read_from": src.name}))
+				continue
+			}
+			if ptd == nil {
+				if op.Kind == "sethead" || len(s.Rewound) > 0 {
+					continue // a rewind removes the TD of rewound canonical blocks but keeps their side children
+				}
+				r.C.Violate("td-additive/parent-td-missing/"+tag, "a stored block's parent has no total difficulty", r.replay(k, map[string]interface{}{"node": i, "read_from": src.name}))
+				continue
+			}
+			if new(big.Int).Add(ptd, t.Blocks[i].Difficulty()).Cmp(td) != 0 {
+				r.C.Violate("td-additive/"+src.name+"/"+tag, "td(b) != td(parent b) + difficulty(b)", r.replay(k, map[string]interface{}{"node": i, "td": td.String(), "parent_td": ptd.String(), "read_from": src.name}))
+			}
 		}
 	}
 	if s.Mixed || len(s.Rewound) > 0 {
 		return
 	}
-	if s.Name == "f" {
+	if s.Name == "f" || s.Name == "p" {
 		head, ok := t.ByHash[s.BC.CurrentBlock().Hash()]
 		if !ok {
 			r.C.Violate("head-unknown-block/"+tag, "the head is not a block that was delivered", r.replay(k, nil))
@@ -498,6 +584,15 @@ func (r *Runner) oracleC02(s *Session, k int, op OpSpec, headBefore, hdrBefore i
 
 // C03: CanonOK at rest.
 func (r *Runner) oracleC03(s *Session, k int, op OpSpec) {
+	if s.Name != "h" && s.BC.CurrentHeader().Hash() != s.BC.CurrentBlock().Hash() {
+		// the header chain runs ahead of the block chain (e.g. SetHead on a pruning node whose
+		// rewound state is gone falls back to the genesis block but keeps the headers): from
+		// here on the history is header-first + full import mixed and C03 names no single head
+		if !s.Mixed {
+			r.C.Count("header-head-ahead-of-block-head:" + s.Name)
+		}
+		s.Mixed = true
+	}
 	if s.Mixed {
 		return
 	}
@@ -547,7 +642,22 @@ func (r *Runner) oracleC03(s *Session, k int, op OpSpec) {
 			}
 		}
 		if miss != "" {
-			r.C.Violate("canonical-data-missing/"+tag, "data of a canonical block is not retrievable: "+miss, r.replay(k, map[string]interface{}{"height": n, "node": anc}))
+			// known mechanism: on a pruning node a side block whose parent state is gone is stored by
+			// WriteBlockWithoutState (no receipts, no state); if its state root happens to exist
+			// (a sibling with the same content has it) the next block imports on top of it without
+			// the winner re-execution, and a reorg makes the receipt-less block canonical
+			sharedRoot := false
+			for j, b := range t.Blocks {
+				if j != anc && b.Root() == t.Blocks[anc].Root() {
+					sharedRoot = true
+				}
+			}
+			if s.Pruning && miss == "receipts " && sharedRoot && anc != 0 {
+				r.C.Violate("pruned-side-block-canonical-without-receipts", "a block stored through the ErrPrunedAncestor path (WriteBlockWithoutState: no receipts) became canonical without being re-executed because its state root already existed: GetReceiptsByHash returns nil for a canonical block",
+					r.replay(k, map[string]interface{}{"height": n, "node": anc}))
+			} else {
+				r.C.Violate("canonical-data-missing/"+tag, "data of a canonical block is not retrievable: "+miss, r.replay(k, map[string]interface{}{"height": n, "node": anc}))
+			}
 		}
 	}
 	// (2) above the head: nothing
